@@ -12,7 +12,10 @@ use crate::subjects::alpha::{self, Verdict};
 use serde_json::{Value, json};
 
 pub const ATOMS: usize = 6;
-pub const VARIANTS: [&str; 3] = ["void function", "function with `return:` value (goto return)", "second function holding labels A and B"];
+pub const VARIANTS: [&str; 4] = ["void function", "function with `return:` value (goto return)", "second function holding labels A and B", "behind a function that jumps to its own labels B and A"];
+
+/// The function in front of the judged one in variant 3 (its labels are its own).
+const EARLIER: &str = "fn g(c: i32)\n{\n\tif c == 0 goto A;\n\tgoto B;\n\tB:\n\tA:\n}\n";
 
 fn atom_text(variant: usize, a: u8) -> String
 {
@@ -34,6 +37,10 @@ pub fn render(variant: usize, forest: &[B]) -> (String, Vec<usize>)
 	let mut atom_lines = Vec::new();
 	body::render_lines(forest, &|a| atom_text(variant, a), 1, &mut lines, &mut atom_lines);
 	let mut text = String::new();
+	if variant == 3
+	{
+		text.push_str(EARLIER);
+	}
 	if variant == 1
 	{
 		text.push_str("fn f(c: i32) -> i32\n{\n");
@@ -57,7 +64,8 @@ pub fn render(variant: usize, forest: &[B]) -> (String, Vec<usize>)
 		text.push_str("fn g()\n{\n\tA:\n\tB:\n}\n");
 	}
 	// file line (1-based) of each atom
-	(text, atom_lines.iter().map(|l| l + 3).collect())
+	let first_body_line = if variant == 3 { 3 + EARLIER.lines().count() } else { 3 };
+	(text, atom_lines.iter().map(|l| l + first_body_line).collect())
 }
 
 /// Translate a forest into the model's vocabulary; ids are indices of atoms in textual order.
@@ -95,11 +103,11 @@ pub fn drive(d: &mut Driver)
 	let plan: Vec<(usize, usize, usize)> = if quick
 	{
 		// (variant, max n, depth)
-		vec![(0, 6, 3), (1, 5, 3), (2, 4, 3)]
+		vec![(0, 6, 3), (1, 5, 3), (2, 4, 3), (3, 4, 3)]
 	}
 	else
 	{
-		vec![(0, 7, 3), (1, 6, 3), (2, 6, 3)]
+		vec![(0, 7, 3), (1, 6, 3), (2, 6, 3), (3, 6, 3)]
 	};
 	d.bound("atoms", json!(["A:", "B:", "goto A;", "goto B;", "if c == 0 goto A;", "if c == 0 goto B;"]));
 	d.bound("variants (max statements, block nesting depth)", json!(plan.iter().map(|(v, n, dep)| json!({"variant": VARIANTS[*v], "max_statements": n, "depth": dep})).collect::<Vec<_>>()));
@@ -245,7 +253,8 @@ pub fn work(spec: &Value, w: &mut WorkerCtx)
 	let depth = spec["depth"].as_u64().unwrap() as usize;
 	let first = spec["first"].as_str().unwrap().to_string();
 	let mut space = BodySpace::new(ATOMS);
-	let symmetric = variant != 1;
+	// (in variant 3 the labels of the earlier function are not interchangeable: A is its last one)
+	let symmetric = variant != 1 && variant != 3;
 	let mut order = Vec::new();
 	space.for_each(n, depth, &first, &mut |forest| {
 		w.result.transitions += 1;
